@@ -1,4 +1,5 @@
 import NfpmModel.Lemmas.ArchiveLemmas
+import NfpmModel.Lemmas.ArLemmas
 import NfpmModel.Props.C05
 import NfpmModel.Generated.G8WriteTgz
 import NfpmModel.Generated.G7Accepted
@@ -71,6 +72,30 @@ theorem apk_segment_keeps_builder_bytes (ws : List Bytes) (pad : Nat) (h : TarWr
   | cut => rw [apk_cut_segment ws pad h]; exact List.prefix_append _ _
   | full => rw [apk_full_segment ws pad h, List.append_assoc]; exact List.prefix_append _ _
 
+/-- the hypothesis `TarWrites` is what the block-level model of archive/tar.Writer establishes for every
+    list of members whose header blocks are whole blocks -/
+theorem tar_builder_writes (ms : List (Bytes × Bytes)) (hh : ∀ m ∈ ms, m.1.length % 512 = 0) :
+    TarWrites (tarBuild ms).writes (tarBuild ms).pad := by
+  have := tarInv_build ms hh {} ⟨by decide, by simp⟩
+  exact ⟨this.1, this.2⟩
+
+/-- **apk segments, end to end**: for every list of members, the data segment is exactly the complete tar
+    stream of the members, and the signature / control segment is that stream without its last 1024 bytes
+    (the end-of-archive marker) -/
+theorem apk_segments_of_members (ms : List (Bytes × Bytes)) (hh : ∀ m ∈ ms, m.1.length % 512 = 0) :
+    tgzStream reviewedBufCap reviewedTgzOps .full (tarBuild ms).writes (tarBuild ms).pad = tarStream ms
+    ∧ tgzStream reviewedBufCap reviewedTgzOps .cut (tarBuild ms).writes (tarBuild ms).pad ++ zeros 1024 = tarStream ms := by
+  have hw := tar_builder_writes ms hh
+  have hb := tarBuild_bytes ms {}
+  simp only [List.flatten_nil, zeros, List.replicate_zero, List.append_nil, List.nil_append] at hb
+  have hfull : tgzStream reviewedBufCap reviewedTgzOps .full (tarBuild ms).writes (tarBuild ms).pad = tarStream ms := by
+    rw [apk_full_segment _ _ hw]
+    unfold tarStream tarBuild at *
+    simp only [zeros] at *
+    rw [hb]
+  refine ⟨hfull, ?_⟩
+  rw [← apk_full_is_cut_plus_marker _ _ hw, hfull]
+
 /-- **segment order** -/
 theorem apk_file_order (gz : Bytes → Bytes) (sig : Option Bytes) (control data : Bytes) :
     apkFile gz sig control data = (sig.map gz).getD [] ++ gz control ++ gz data := by
@@ -117,6 +142,55 @@ theorem deb_ar_members (compression : Bytes) (sigType : Option Bytes) :
     simp only [Generated.accepted_deb_compression, List.mem_cons, List.mem_nil_iff, or_false, not_or] at h
     obtain ⟨h1, h2, h3, h4, h5⟩ := h
     simp [debArNames, debDataName, h1, h2, h3, h4, h5]
+
+/-- **deb is a well-formed ar archive, byte for byte**: an independent reader of the ar format recovers from the
+    file exactly the members that were written – names, bodies, order – for every list of members the format can
+    express (names of at most 16 bytes not ending in a blank, bodies below 10^10 bytes); odd-sized bodies and
+    their alignment byte included -/
+theorem deb_ar_roundtrip (mtime : Int) (ms : List Ar.Member) (hm : ∀ m ∈ ms, Ar.MemberOK m) :
+    Ar.read (Ar.file mtime ms) = some ms := by
+  unfold Ar.read Ar.file
+  have h8 : Ar.globalHeader.length = 8 := by decide
+  rw [List.take_left' h8, List.drop_left' h8]
+  simp only [ne_eq, not_true_eq_false, if_false]
+  apply Ar.readMembers_all mtime ms hm
+  have := Ar.flatMap_length_ge mtime ms
+  simp only [List.length_append, h8]
+  omega
+
+/-- the member names deb uses fit the format -/
+theorem deb_member_names_fit (compression : Bytes) (sigType : Bytes) (names : List Bytes)
+    (h : debArNames compression (some sigType) = some names) (hs : sigType ∈ [b!"origin", b!"maint", b!"archive", b!"builder"]) :
+    ∀ n ∈ names, n.length ≤ 16 ∧ n.getLast? ≠ some space := by
+  unfold debArNames at h
+  cases hd : debDataName compression with
+  | none => simp [hd] at h
+  | some d =>
+    simp only [hd, Option.map_some, Option.some.injEq] at h
+    have hdn : d ∈ [b!"data.tar.gz", b!"data.tar.xz", b!"data.tar.zst", b!"data.tar"] := by
+      unfold debDataName at hd
+      split at hd
+      · cases hd; simp
+      · split at hd
+        · cases hd; simp
+        · split at hd
+          · cases hd; simp
+          · split at hd
+            · cases hd; simp
+            · cases hd
+    subst h
+    intro n hn
+    simp only [List.cons_append, List.nil_append, List.mem_cons, List.mem_nil_iff, or_false] at hn hdn hs
+    rcases hn with rfl | rfl | rfl | rfl
+    · decide
+    · decide
+    · rcases hdn with rfl | rfl | rfl | rfl <;> decide
+    · rcases hs with rfl | rfl | rfl | rfl <;> decide
+
+set_option maxRecDepth 100000 in
+/-- non-vacuity: a three-member deb skeleton with an odd-sized member reads back -/
+example : Ar.read (Ar.file 1700000000 [⟨b!"debian-binary", b!"2.0\n"⟩, ⟨b!"control.tar.gz", b!"abc"⟩, ⟨b!"data.tar.zst", b!"de"⟩])
+    = some [⟨b!"debian-binary", b!"2.0\n"⟩, ⟨b!"control.tar.gz", b!"abc"⟩, ⟨b!"data.tar.zst", b!"de"⟩] := by decide
 
 /-- **archlinux**: payload first, then .PKGINFO, .MTREE, and .INSTALL iff scripts exist -/
 theorem arch_member_order (payload : List Bytes) (hasScripts : Bool) :
